@@ -100,6 +100,23 @@ pub struct HTLCPreviousHopData { pub outpoint: OutPoint, pub htlc_id: u64, pub p
 //@with
     let replay = update.update_id >= m_monitor.get_latest_update_id();
 //@end
+// (finding F17) whether the channel is resumed at start-up because the updates that were in flight have all reached the monitor: never when the
+// monitor allows no further updates - while the node ran, such a monitor kept those updates "in progress" until its own event closed the channel, and a
+// channel resumed before that event is processed answers a reconnecting peer with the revocation of the commitment the monitor has broadcast
+//@extract lightning/src/ln/channelmanager.rs :: impl ChannelManager :: fn from_channel_manager_data
+//@metavars
+//@slice R15
+    let all_updates_completed = $e:seq; let funding_txo = m_monitor.get_funding_txo();
+//@with
+    fn channel_is_resumed_at_start_up(num_updates_completed: usize, m_chan_in_flight_upds: &Vec<MonitorUpdate>, m_monitor: &MonitorStub) -> bool { let all_updates_completed = $e; all_updates_completed }
+//@ret r
+//@ensures P C05,C10 a-channel-whose-monitor-allows-no-further-updates-is-not-resumed-at-start-up-and-any-other-exactly-when-every-in-flight-update-reached-the-monitor
+    r == (num_updates_completed == m_chan_in_flight_upds@.len() && !m_monitor.closed),
+//@mutant channel_resumed_although_its_monitor_went_on_chain
+    && !m_monitor.no_further_updates_allowed()
+//@with
+
+//@end
 // ---- background events regenerated at start-up are acted on first, and acting on them makes the manager persist again ----------
 pub mod background {
 use vstd::prelude::*;
@@ -371,7 +388,8 @@ pub struct Chan { pub context: Ctx }
 //@ensures P C10 telling-the-manager-of-an-unconfirmed-transaction-which-also-happens-during-start-up-before-the-chain-monitor-is-ready-never-runs-the-background-events
     r,
 //@end
-pub struct MonitorStub { pub latest: u64 }
-impl MonitorStub { #[verifier::external_body] pub fn get_latest_update_id(&self) -> (r: u64) ensures r == self.latest { unimplemented!() } }
+pub struct MonitorStub { pub latest: u64, pub closed: bool }   // closed: the monitor allows no further updates (it signed our commitment for broadcast, was told to, or saw the funding output spent)
+impl MonitorStub { #[verifier::external_body] pub fn get_latest_update_id(&self) -> (r: u64) ensures r == self.latest { unimplemented!() }
+    #[verifier::external_body] pub fn no_further_updates_allowed(&self) -> (r: bool) ensures r == self.closed { unimplemented!() } }
 }
 fn main() {}
